@@ -5,10 +5,10 @@ CONSTANTS DefaultMaxDepth = 20
   FixF6 = TRUE
   FixEq = TRUE
   FixF5 = TRUE
-  MaxNodes = 6
+  MaxNodes = 5
   MaxHeight = 4
   Decos = {0}
-  MDs = {0, 3}
+  MDs = {0, 2, 3}
   Pres <- PresNone
   GenMode = FALSE
 INVARIANTS ImplMeetsSpec SpecSane
